@@ -378,7 +378,11 @@ func (c *compiler) compile(tok *token) []instruction {
 				key = c.expPrefix(key)
 				idx = lookup.Index(key)
 			}
-			res = append(res, instruction{Code: code, A: reg(idx)})
+			if len(target.Tokens) > 0 {
+				res = append(res, instruction{Code: codeCast, A: reg(typeFromToken(c, target.Tokens[0]))})
+			}
+			// B=1: store the value as it is, so an untyped constant stays untyped
+			res = append(res, instruction{Code: code, A: reg(idx), B: 1})
 		}
 	case ":=", "var":
 		values := c.compile(tok.Tokens[1])
